@@ -73,4 +73,16 @@ META = {
         "level_text": "Sequential histories are compared after every step with a reference map through three observations (Has for every triple, DataCopy, a peer's read). The concurrent clause is decided by enumerating all merge orders of the copy/store segments of operations on different entities (yield point UseCase.afterCopy) and by free-running goroutines.",
         "level_note": "Trusted: sched engine; commutativity of operations on different entities. Interleavings inside the model helpers themselves are only reached by stress.",
     },
+    "C12": {
+        "technique": "property-based testing (rapid) of the verdict matrix in real time with per-write outcome oracle; deterministic placement of the time-out inside the approval window through a build-tag yield point",
+        "design_ref": "DESIGN.md §4 C12",
+        "level_text": "Generated verdict matrices over several callbacks, pending writes, peers, delivery orders and late deliveries; every write must show exactly one outcome consistent with its own row. The approval-versus-time-out race, unreachable by timing, is decided by parking the deciding delivery at the yield point until the time-out result is on the wire - all placements enumerated.",
+        "level_note": "Trusted: the 25 ms time-out with generous event-driven waits (cases where the harness itself was slow are discarded); the yield point placement. Interleavings of ApproveOrDenyWrite with itself from several goroutines are C17's subject.",
+    },
+    "C13": {
+        "technique": "model-based property testing (rapid state machine) with the complete wire log as reference model; enumerated cache-window scenarios; concurrent rounds on real goroutines",
+        "design_ref": "DESIGN.md §4 C13",
+        "level_text": "Histories of sender calls and responses are judged against the harness's complete log of what was written, so the oracle is sound for any eviction policy; boundedness is asserted behaviourally; the notify cache is probed with lookups between notifies (205 enumerated scenarios plus generated ones); uniqueness of counters under concurrent use on 8-16 goroutines.",
+        "level_note": "Trusted: capture writer order as issue order for non-overlapping calls. Concurrent failures are not shrinkable (the message carries both colliding datagrams).",
+    },
 }
